@@ -48,7 +48,14 @@ def import_lib():
 # --------------------------------------------------------------------------- TLC
 
 def workdir(name):
-    d = os.path.join(WORKROOT, name)
+    """Fresh scratch directory .work/<name>-<pid> (concurrent runs of the same check do not collide); directories left
+    behind by runs that no longer exist are removed."""
+    os.makedirs(WORKROOT, exist_ok=True)
+    for old in os.listdir(WORKROOT):
+        m = re.match(r"^%s-(\d+)$" % re.escape(name), old)
+        if m and not os.path.exists("/proc/%s" % m.group(1)):
+            shutil.rmtree(os.path.join(WORKROOT, old), ignore_errors=True)
+    d = os.path.join(WORKROOT, "%s-%d" % (name, os.getpid()))
     shutil.rmtree(d, ignore_errors=True)
     os.makedirs(d)
     for root in (SPEC, os.path.join(SPEC, "mc"), os.path.join(SPEC, "trace")):
